@@ -91,7 +91,7 @@ var loopRe = regexp.MustCompile(`^loop\s+(\d+)\s*:\s*(.*)$`)
 
 func isKeyword(w string) bool {
 	switch w {
-	case "end_of_body", "assumes", "ghostvar", "props_tagged_only", "section", "rename", "renamekey", "params", "def", "func", "props", "results", "requires", "ensures", "modifies", "loop", "panics_when", "may_panic", "assert", "assume",
+	case "terminates_assumed", "recursion_assumed", "end_of_body", "assumes", "ghostvar", "props_tagged_only", "section", "rename", "renamekey", "params", "def", "func", "props", "results", "requires", "ensures", "modifies", "loop", "panics_when", "may_panic", "assert", "assume",
 		"axiom", "lemma", "trusted", "inline", "ghost", "decreases", "allocates", "induction", "note", "end", "use", "opaque", "bounded", "template", "havoc", "order_independent", "order_assumed", "order_exempt", "order_only", "effect", "emits", "libarg", "after", "invariant", "before_stmt", "after_stmt", "effects_only":
 		return true
 	}
